@@ -1,6 +1,10 @@
 package checks
 
 import (
+	"bytes"
+	"fmt"
+	"os"
+	"path/filepath"
 	"testing"
 
 	"pgregory.net/rapid"
@@ -24,11 +28,159 @@ func genC02(t *rapid.T) SeqCase {
 	return c
 }
 
-const c02Rule = "rapid-generated histories as in C01 (plus GC cycles) with close/reopen actions at arbitrary positions; at every reopen Close is called twice, the closed directory is copied three times and opened through the saved bucket snapshot, after deleting the snapshot (rescan) and with a snapshot of the wrong size (unusable); " +
+const c02Rule = "rapid-generated histories as in C01 (plus GC cycles) with close/reopen actions at arbitrary positions; at every reopen Close is called twice, the closed directory is copied three times and opened through the saved bucket snapshot, after deleting the snapshot (rescan) and with a snapshot of the wrong size (unusable); failed-flush part: a history in which one explicit Flush is made to fail by the environment (stray file at the next primary file name or stray directory at the next index file name), the cause is removed, the calls go on and the history ends in Close - if Close returns nil the reopened directory must hold exactly what was acknowledged (calls that returned an error excluded), if it returns an error nothing foreign may be read; " +
 	"oracle = every copy reads back exactly the reference map (Get/Has/GetSize of every pool key + iteration), the decoded record list of every bucket is identical across the three recovery paths, and the run continues on the store reopened in a drawn mode; a failure counts only if the same history passes with the reopen actions skipped; " +
 	"non-trivial = a reopen preceded by an index file roll-over, the removal/overwrite of a flushed key or a GC cycle that changed a file; distinct = distinct canonical JSON of the case"
 
 var reopenSkip = map[string]bool{opReopen: true}
+
+// FFCase: a history in which one explicit Flush is made to fail by the
+// environment (a stray file at the name of the next primary file, or a stray
+// directory at the name of the next index file), the cause is removed, and the
+// history goes on and ends in Close.
+type FFCase struct {
+	Cfg    Config    `json:"cfg"`
+	Keys   []KeySpec `json:"keys"`
+	Before []Op      `json:"before"`
+	Held   []Op      `json:"held"` // acknowledged, not flushed when the flush fails
+	Fault  string    `json:"fault"`
+	After  []Op      `json:"after"`
+}
+
+func genFF(t *rapid.T) FFCase {
+	var c FFCase
+	c.Cfg = genConfig(t, cfgGenOpts{onlyMultihash: true, smallBits: true, smallFiles: true})
+	if c.Cfg.Bits > 12 {
+		c.Cfg.Bits = 8
+	}
+	c.Cfg.Immutable = false
+	c.Cfg.PrimSize = []uint32{1, 32, 64, 200}[rapid.IntRange(0, 3).Draw(t, "ffprim")]
+	c.Cfg.IdxSize = []uint32{1, 32, 64, 200}[rapid.IntRange(0, 3).Draw(t, "ffidx")]
+	c.Keys = genKeys(t, c.Cfg, 3, 8)
+	m := genMix(t, []string{opPut, opRemove, opFlush}, []int{6, 2, 3})
+	c.Before = genOps(t, m, len(c.Keys), c.Cfg, 1, 12, false)
+	c.Held = genOps(t, genMix(t, []string{opPut, opRemove}, []int{5, 1}), len(c.Keys), c.Cfg, 1, 6, false)
+	c.Fault = []string{"stray-next-primary-file", "stray-dir-at-next-index-file"}[rapid.IntRange(0, 1).Draw(t, "fffault")]
+	c.After = genOps(t, m, len(c.Keys), c.Cfg, 0, 8, false)
+	return c
+}
+
+// runFF returns whether the flush did fail, and a violation if Close returned
+// nil and the reopened directory does not hold what was acknowledged.
+func runFF(c FFCase) (failed bool, v *Violation) {
+	dir := newScratch("ff")
+	defer os.RemoveAll(dir)
+	s, err := openStore(dir, c.Cfg)
+	if err != nil {
+		panic(infraError{err})
+	}
+	model := map[int][]byte{}
+	ever := map[int][][]byte{}
+	n := 0
+	apply := func(ops []Op) {
+		for _, op := range ops {
+			n++
+			k := op.Key % len(c.Keys)
+			key := c.Keys[k].Encode(c.Cfg.Primary, false)
+			switch op.K {
+			case opPut, opRePut:
+				val := valueFor(n, op.VLen, false)
+				ever[k] = append(ever[k], val)
+				if s.Put(key, val) == nil {
+					model[k] = val
+				}
+			case opRemove:
+				if ok, err := s.Remove(key); err == nil && ok {
+					delete(model, k)
+				}
+			case opFlush:
+				s.Flush()
+			}
+		}
+	}
+	return failed, guard(-1, "failed-flush", func() *Violation {
+		apply(c.Before)
+		s.Flush()
+		var strays []string
+		base, asDir := dataBase, false
+		if c.Fault == "stray-dir-at-next-index-file" {
+			base, asDir = idxBase, true
+		}
+		nums := numberedFiles(dir, base)
+		next := uint32(0)
+		if len(nums) > 0 {
+			next = nums[len(nums)-1] + 1
+		}
+		for i := next; i < next+3; i++ {
+			name := filepath.Join(dir, fmt.Sprintf("%s.%d", base, i))
+			if asDir {
+				os.Mkdir(name, 0o755)
+			} else {
+				os.WriteFile(name, []byte("stray"), 0o644)
+			}
+			strays = append(strays, name)
+		}
+		apply(c.Held)
+		ferr := s.Flush()
+		failed = ferr != nil
+		for _, name := range strays {
+			if fi, err := os.Lstat(name); err == nil && (fi.IsDir() || fi.Size() == 5) {
+				if b, _ := os.ReadFile(name); fi.IsDir() || string(b) == "stray" {
+					os.Remove(name)
+				}
+			}
+		}
+		apply(c.After)
+		cerr := s.Close()
+		s2, err := openStore(dir, c.Cfg)
+		if err != nil {
+			if cerr == nil && failed {
+				return viol("reopen-fails-after-nil-close|after-failed-flush|"+errClass(err), -1, "one Flush failed (%v), its cause was removed, Close returned nil, and the directory cannot be reopened: %v", ferr, err)
+			}
+			return nil
+		}
+		defer closeQuietly(s2)
+		for k, ks := range c.Keys {
+			got, found, err := s2.Get(ks.Encode(c.Cfg.Primary, false))
+			if cerr != nil {
+				// Close reported the failure: what was acknowledged may be
+				// missing, but nothing foreign may be read.
+				if err == nil && found {
+					ok := false
+					for _, val := range ever[k] {
+						if bytes.Equal(val, got) {
+							ok = true
+						}
+					}
+					if !ok {
+						return viol("foreign-bytes-after-failed-flush|after-failed-flush|", -1, "key %d reads %s which was never put for it (Close had returned %v)", k, shortBytes(got), cerr)
+					}
+				}
+				continue
+			}
+			want, present := model[k]
+			sym := ""
+			switch {
+			case err != nil:
+				sym = "error"
+			case present && !found:
+				sym = "absent-but-acknowledged"
+			case !present && found:
+				sym = "present-but-removed"
+			case present && !bytes.Equal(got, want):
+				sym = "other-value"
+			}
+			if sym != "" {
+				what := "no Flush failed"
+				if failed {
+					what = fmt.Sprintf("one explicit Flush failed (%v), its cause (%s) was removed and the calls went on", ferr, c.Fault)
+				}
+				return viol("contents-differ-after-nil-close|after-failed-flush|"+sym, -1, "%s; Close returned nil, but after reopening key %d reads (%s, found=%v, err=%v) instead of (%s, present=%v)", what, k, shortBytes(got), found, err, shortBytes(want), present)
+			}
+		}
+		return nil
+	})
+}
 
 func TestC02(t *testing.T) {
 	ev := newEvidence("C02", "exploration", c02Rule)
@@ -43,6 +195,17 @@ func TestC02(t *testing.T) {
 		return true
 	}
 	nt := func(st SeqStats) bool { return st.ReopenAfterWork && st.Reopens[1] > 0 }
+	if envReplay != "" && bytes.Contains(readReplayRaw(envReplay).Case, []byte(`"held"`)) {
+		var c FFCase
+		readReplay(envReplay, &c)
+		_, v := runFF(c)
+		ev.Record(c, true)
+		if v != nil {
+			ev.Report(v, c)
+			t.Fatalf("replay: %v", v)
+		}
+		return
+	}
 	if envReplay != "" {
 		var c SeqCase
 		readReplay(envReplay, &c)
@@ -77,6 +240,28 @@ func TestC02(t *testing.T) {
 		st, v := runSeq(c, opts())
 		ev.Record(c, nt(st), seqClasses(c, st)...)
 		if v != nil && attribute(c, v) && ev.Report(v, c) {
+			rt.Fatalf("%v", v)
+		}
+	})
+	if t.Failed() {
+		return
+	}
+	// A Flush that fails in between: "after Close returns without error"
+	// does not say that every earlier call succeeded.
+	setRapidChecks(budget(600, 2000))
+	rapid.Check(t, func(rt *rapid.T) {
+		if pastDeadline() {
+			ev.Skip()
+			return
+		}
+		c := genFF(rt)
+		failed, v := runFF(c)
+		cl := []string{"failed-flush-in-the-history"}
+		if failed {
+			cl = append(cl, "failed-flush-in-the-history:flush-did-fail("+c.Fault+")")
+		}
+		ev.Record(c, failed, cl...)
+		if v != nil && ev.Report(v, c) {
 			rt.Fatalf("%v", v)
 		}
 	})
